@@ -169,7 +169,7 @@ func (r *bungeeCordMessageResponder) prepareForwardMessage(in io.Reader) (forwar
 		return
 	}
 	messageLen, err := util.ReadInt16(in)
-	if err != nil {
+	if err != nil || messageLen < 0 {
 		return
 	}
 	msg := make([]byte, messageLen)
@@ -179,7 +179,7 @@ func (r *bungeeCordMessageResponder) prepareForwardMessage(in io.Reader) (forwar
 	}
 
 	forwarded := new(bytes.Buffer)
-	forwarded.WriteString(channel)
+	_ = util.WriteUTF(forwarded, channel) // length-prefixed, as the receiver reads it with readUTF
 	_ = util.WriteInt16(forwarded, messageLen)
 	forwarded.Write(msg)
 	return forwarded.Bytes()
